@@ -2,7 +2,7 @@
    from the glue model (same precinct index sets, position keys, band order, grids), and what
    gatherCBData then holds for every code-block of every component. *)
 From V Require Import Common.Base J2KGeo.GeoModel J2KGeo.GeoProofsBlocks T2.T2Header T2.T2Packets
-  T2.T2ProofsHeader T2.T2ProofsHeader3 T2.T2ProofsPackets1 T2.T2ProofsPackets2 T2.T2ProofsPackets4 T2.T2ProofsGather
+  T2.T2ProofsHeader T2.T2ProofsHeader3 T2.T2ProofsPackets1 T2.T2ProofsPackets2 T2.T2ProofsPackets4 T2.T2ProofsPackets5 T2.T2ProofsGather
   Pipe.PipeModel Pipe.PipeProofsFront Pipe.PipeProofsLists Pipe.PipeProofsStore Pipe.PipeProofsGeo
   Pipe.PipeProofsDecGeo Pipe.PipeProofsBlock Pipe.PipeCellRel Pipe.PipeProofsEnc Pipe.PipeProofsCells
   Pipe.PipeGatherOnce.
@@ -441,6 +441,16 @@ Proof.
     destruct (eblk_fields p Hsc (cf c) (Hlen _ (cf_in c ltac:(lia))) (Hbound _ (cf_in c ltac:(lia))) r cb Hin) as (_ & _ & _ & _ & _ & F6 & _).
     unfold GeoLayers.layer_contribution in *. rewrite F6 in *. cbn [snd] in *. exact Hs.
   - change (zlen (@nil Z)) with 0. lia.
+Qed.
+
+(* EncodePackets succeeds (packets_encode_total with G2..G4 discharged) and stays small *)
+Theorem t2_encodes : 0 <= pp_order p <= 4 ->
+  exists eps cells', enc_packets (pp_order p) 1 (L + 1) nc (pipe_pgeom p) cells = Ok (eps, cells') /\ small_packets eps.
+Proof.
+  intros Hord.
+  destruct (packets_encode_total false 1 (L + 1) nc (pp_order p) (pipe_pgeom p) (dec_pidx p) (dec_geo p) cells
+              G2_pidx G2'_nodup (fun _ => G3_keys) G4_cells Hord ltac:(lia)) as [eps [cells' [E Hok]]].
+  exists eps, cells'. split; [exact E | apply small_from_blocks; exact Hok].
 Qed.
 
 End T2.
